@@ -202,7 +202,7 @@ theorem frame_execOne_exec (env : PEnv) (mh : Match) (st : ExecSt) (hty : mh.ty 
     | none => exact ⟨fr1, rfl⟩
     | some fd =>
       dsimp only
-      refine wp_bind_mono (frame_execP fd fr1) ?_
+      refine wp_bind_mono (frame_execP _ fd fr1) ?_
       intro rc w2 fr2
       cases fd with
       | none => exact ⟨fr2, rfl⟩
